@@ -37,6 +37,10 @@ pub fn sjis_sub(s: &str) -> Vec<u8> {
 
 /// A random character of the sub-codec alphabet (never NUL).
 pub fn sub_char(rng: &mut Rng) -> char {
+    if rng.chance(1, 12) {
+        let sp = special_chars();
+        return *rng.pick(&sp);
+    }
     match rng.below(10) {
         0..=5 => {
             // printable ASCII mostly, sometimes any non-NUL ASCII (incl. 0x5C, 0x7E, 0x7F, controls)
@@ -55,6 +59,37 @@ pub fn sub_char(rng: &mut Rng) -> char {
         }
         _ => char::from_u32(rng.range(0x30A1, 0x30F6) as u32).unwrap(),
     }
+}
+
+/// Characters of the alphabet that are "special" by value: a Shift-JIS byte or the low byte of the
+/// code point equals an ASCII character with a meaning somewhere ('\\' 0x5C, 'n' 0x6E, '\n' 0x0A,
+/// '"', '/', '.', 0x7F), plus those ASCII characters themselves.
+pub fn special_chars() -> Vec<char> {
+    let marks = [0x5Cu32, 0x6E, 0x0A, 0x22, 0x2F, 0x2E, 0x7F, 0x80];
+    let mut v: Vec<char> = crate::subcodec::non_ascii()
+        .into_iter()
+        .filter(|c| {
+            let b = crate::subcodec::enc_char(*c).unwrap();
+            marks.contains(&((*c as u32) & 0xFF)) || b.iter().any(|x| marks.contains(&(*x as u32)))
+        })
+        .collect();
+    v.extend(['\\', 'n', '\n', '"', '/', '.', '\u{7F}', '\u{1}']);
+    v
+}
+
+/// A random name of exactly `len` Shift-JIS bytes.
+pub fn exact_len_name(rng: &mut Rng, len: usize) -> String {
+    let mut s = String::new();
+    let mut l = 0;
+    while l < len {
+        let c = sub_char(rng);
+        let w = sjis_sub_char(c).unwrap().len();
+        if l + w <= len {
+            s.push(c);
+            l += w;
+        }
+    }
+    s
 }
 
 pub fn sub_name(rng: &mut Rng, max_len: u64) -> String {
@@ -540,6 +575,37 @@ pub fn gen(seed: u64, tier: &str) -> Vec<String> {
             files.push((boundary_name(total, 65535.min(total - 2), *rng.pick(&chars), total), vec![1, 2, 3]));
         }
         out.push(format!("build {}", fmt_files(&files)));
+    }
+
+    // 2e. exact lengths and counts: every name length 0..=130 encoded bytes once (library round
+    //     trip and independent image), and entry counts around the powers of two
+    {
+        let mut lens: Vec<usize> = (0..=130).collect();
+        rng.shuffle(&mut lens);
+        for chunk in lens.chunks(10) {
+            let mut files: Vec<(String, Vec<u8>)> = Vec::new();
+            for &l in chunk {
+                let mut nm = exact_len_name(&mut rng, l);
+                while files.iter().any(|f| f.0 == nm) {
+                    nm = exact_len_name(&mut rng, l);
+                }
+                let bl = rng.range(0, 3) as usize;
+                files.push((nm, rng.bytes(bl)));
+            }
+            out.push(format!("build {}", fmt_files(&files)));
+            let img = build_foreign(&mut rng, &files, Layout::Shuffled);
+            out.push(format!("parse {} {}", hex(&img), fmt_files(&files)));
+        }
+        for k in [7usize, 8, 9, 15, 16, 17, 31, 32, 33, 63, 64, 65, 127, 128, 129] {
+            let names = distinct_names(&mut rng, k);
+            let files: Vec<(String, Vec<u8>)> =
+                names.into_iter().map(|nm| { let bl = rng.range(0, 2) as usize; (nm, rng.bytes(bl)) }).collect();
+            if thorough || k % 2 == 1 || k == 8 || k == 64 {
+                out.push(format!("build {}", fmt_files(&files)));
+            }
+            let img = build_foreign(&mut rng, &files, Layout::Reversed);
+            out.push(format!("parse {} {}", hex(&img), fmt_files(&files)));
+        }
     }
 
     // 2d. second use on the same thread: a FAILING parse (a name that runs off the end of the
